@@ -6,7 +6,10 @@ import (
 	"math/rand"
 	"strings"
 
+	"github.com/netflix/rend/common"
 	"github.com/netflix/rend/handlers/memcached/cluster"
+
+	"verif/harness/fakemc"
 )
 
 type kbucket string
@@ -47,7 +50,7 @@ func ringString(c *cluster.Continuum) (string, []uint32, []string) {
 
 func init() {
 	checks["C19"] = func(rep *Report, tier string, seed int64) {
-		rep.Rule = "node sets of size 1..32 (labels ip:port; the recorded pair of labels that share a ring location is always included): every permutation for sets of up to 4 (quick) / 5 (thorough) nodes, random permutations for larger sets; the real ring (hook) is compared point by point with the model's ring built from the same md5 digests, Bucket() is compared at locations 0, 2^32-1, every 37th ring point and its neighbours and at the hashes of random keys; oracles on the real code: same owner under every permutation, single-node removal moves only the removed node's keys, every node owns keys of a 20000-key sample; distinct = distinct (node set, permutation) pairs"
+		rep.Rule = "node sets of size 1..32 (labels ip:port; the recorded pair of labels that share a ring location is always included): every permutation for sets of up to 4 (quick) / 5 (thorough) nodes, random permutations for larger sets; the real ring (hook) is compared point by point with the model's ring built from the same md5 digests, Bucket() is compared at locations 0, 2^32-1, every 37th ring point and its neighbours and at the hashes of random keys; oracles on the real code: same owner under every permutation, single-node removal moves only the removed node's keys, every node owns keys of a 20000-key sample; the cluster HANDLER over three fake nodes (TCP): 300 keys set through one handler lie on exactly the node the ring of the node addresses predicts and are found through a second handler built from the same addresses in another order; distinct = distinct (node set, permutation) pairs"
 		d := StartDriver()
 		defer d.Close()
 		r := rand.New(rand.NewSource(seed))
@@ -241,6 +244,73 @@ func init() {
 					rep.Evaluations++
 				}
 			}
+		}
+		// the cluster HANDLER itself (the labels it gives its nodes, the connections it routes over):
+		// three fake nodes; a value set through one handler is found through another handler built
+		// from the same addresses listed in another order, and lies on the node the ring of the node
+		// ADDRESSES predicts — on no other
+		{
+			var nodes []*fakemc.Server
+			var addrs []string
+			for i := 0; i < 3; i++ {
+				n := fakemc.New()
+				a, err := n.ListenTCP()
+				must(err)
+				nodes, addrs = append(nodes, n), append(addrs, a)
+			}
+			rev := []string{addrs[2], addrs[0], addrs[1]}
+			ha, errA := cluster.NewHandler(addrs, "verif")
+			hb, errB := cluster.NewHandler(rev, "verif")
+			if errA != nil || errB != nil {
+				viol(fmt.Sprintf("cluster.NewHandler failed: %v %v", errA, errB), "cluster-handler-setup", nil)
+			} else {
+				ring := cluster.New(mkBuckets(addrs))
+				bad := 0
+				for i := 0; i < 300 && bad == 0; i++ {
+					key := []byte(fmt.Sprintf("ck-%d-%d", seed, i))
+					val := []byte(fmt.Sprintf("value-%d", i))
+					if err := ha.Set(common.SetRequest{Key: key, Data: val, Flags: uint32(i)}); err != nil {
+						viol(fmt.Sprintf("set of %q through the cluster handler failed: %v", key, err), "cluster-handler-set", nil)
+						bad++
+						break
+					}
+					want := ring.Hash(key).Label()
+					holders := []string{}
+					for ni, n := range nodes {
+						if _, ok := n.Lookup(string(key)); ok {
+							holders = append(holders, addrs[ni])
+						}
+					}
+					if len(holders) != 1 || holders[0] != want {
+						viol(fmt.Sprintf("key %q set through a cluster handler for nodes %v lies on %v; the ring of the node addresses routes it to %s", key, addrs, holders, want),
+							"cluster-handler-routing", map[string]interface{}{"nodes": addrs, "key": string(key), "holders": holders, "expected": want})
+						bad++
+						break
+					}
+					rc, ec := hb.Get(common.GetRequest{Keys: [][]byte{key}, Opaques: []uint32{1}, Quiet: []bool{false}})
+					hit := false
+					for res := range rc {
+						if !res.Miss && string(res.Data) == string(val) {
+							hit = true
+						}
+					}
+					for range ec {
+					}
+					if !hit {
+						viol(fmt.Sprintf("key %q set through a handler for nodes %v is not found through a handler for the same nodes listed as %v", key, addrs, rev),
+							"cluster-handler-order", map[string]interface{}{"nodes_a": addrs, "nodes_b": rev, "key": string(key)})
+						bad++
+					}
+					rep.Evaluations++
+				}
+				ha.Close()
+				hb.Close()
+			}
+			for _, n := range nodes {
+				n.StopListening()
+				n.CloseAll()
+			}
+			rep.Distribution["cluster-handler-keys"] = 300
 		}
 		rep.Distinct = len(distinct)
 	}
